@@ -291,3 +291,289 @@ Qed.
 Example lz4_denotes_example :
   DenotesLz4 ([16 * 1 + 15; 7; 1; 0; 3; 16 * 2 + 0; 8; 9] ) (repeat 7 23 ++ [8; 9]).
 Proof. apply spec_decode_sound. vm_compute. reflexivity. Qed.
+
+(* ================================================================== compression: the writers *)
+
+Lemma ext_bytes_spec fuel : forall rem, (N.to_nat (rem / 255) < fuel)%nat ->
+  ext_bytes fuel rem = repeat 255 (N.to_nat (rem / 255)) ++ [rem mod 255].
+Proof.
+  induction fuel as [|f IH]; intros rem H; [lia|].
+  cbn [ext_bytes]. destruct (255 <=? rem) eqn:E.
+  - rewrite IH by lia.
+    replace (N.to_nat (rem / 255)) with (S (N.to_nat ((rem - 255) / 255))) by lia.
+    cbn [repeat app]. do 3 f_equal. lia.
+  - replace (N.to_nat (rem / 255)) with O by lia. cbn [repeat app]. f_equal. lia.
+Qed.
+
+Lemma ext_of_spec rem : ext_of rem = repeat 255 (N.to_nat (rem / 255)) ++ [rem mod 255].
+Proof. unfold ext_of. apply ext_bytes_spec. lia. Qed.
+
+Lemma nlen_repeat {A} (a : A) k : nlen (repeat a k) = N.of_nat k.
+Proof. unfold nlen. rewrite repeat_length. reflexivity. Qed.
+
+Lemma ext_of_len rem : nlen (ext_of rem) = rem / 255 + 1.
+Proof. rewrite ext_of_spec, nlen_app, nlen_repeat, nlen_cons, nlen_nil. lia. Qed.
+
+(** the (nibble, extension) pair written for a length [v] *)
+Lemma enc_len_written v :
+  EncLen (if 15 <=? v then 15 else v) (if 15 <=? v then ext_of (v - 15) else []) v.
+Proof.
+  destruct (15 <=? v) eqn:E.
+  - rewrite ext_of_spec.
+    replace v with (15 + 255 * N.of_nat (N.to_nat ((v - 15) / 255)) + (v - 15) mod 255) at 3 by lia.
+    constructor. lia.
+  - constructor. lia.
+Qed.
+
+Lemma write_seq_enc lits off mlen :
+  4 <= mlen -> off < 65536 -> EncSeq (Seq lits off mlen) (write_seq lits off mlen).
+Proof.
+  intros Hm Ho. unfold write_seq. rewrite MIN_MATCH_eq.
+  pose proof (enc_len_written (nlen lits)) as HL. pose proof (enc_len_written (mlen - 4)) as HM.
+  replace ((if 15 <=? nlen lits then 240 else (16 * nlen lits) mod 256) + (if 15 <=? mlen - 4 then 15 else (mlen - 4) mod 256))
+    with (16 * (if 15 <=? nlen lits then 15 else nlen lits) + (if 15 <=? mlen - 4 then 15 else mlen - 4))
+    by (destruct (15 <=? nlen lits) eqn:E1; destruct (15 <=? mlen - 4) eqn:E2; lia).
+  replace ((off / 256) mod 256) with (off / 256) by lia.
+  cbn [app]. constructor; assumption.
+Qed.
+
+Lemma write_last_enc lits : EncLast lits (write_last lits).
+Proof.
+  unfold write_last. pose proof (enc_len_written (nlen lits)) as HL.
+  destruct (15 <=? nlen lits) eqn:E.
+  - cbn [app]. change 240 with (16 * 15 + 0). constructor; [exact HL|lia].
+  - cbn [app]. replace ((16 * nlen lits) mod 256) with (16 * nlen lits + 0) by lia.
+    assert (H0 : 0 < 16) by lia. exact (ELast lits (nlen lits) [] 0 HL H0).
+Qed.
+
+Lemma write_seq_len lits off mlen :
+  nlen (write_seq lits off mlen) =
+  3 + nlen lits + (if 15 <=? nlen lits then (nlen lits - 15) / 255 + 1 else 0)
+    + (if 15 <=? mlen - 4 then (mlen - 4 - 15) / 255 + 1 else 0).
+Proof.
+  unfold write_seq. rewrite MIN_MATCH_eq. rewrite !nlen_app, !nlen_cons, !nlen_nil.
+  destruct (15 <=? nlen lits); destruct (15 <=? mlen - 4); rewrite ?ext_of_len; try change (nlen (@nil N)) with 0; lia.
+Qed.
+
+Lemma write_last_len lits :
+  nlen (write_last lits) = 1 + nlen lits + (if 15 <=? nlen lits then (nlen lits - 15) / 255 + 1 else 0).
+Proof.
+  unfold write_last. rewrite nlen_app. destruct (15 <=? nlen lits).
+  - rewrite nlen_cons, ext_of_len. lia.
+  - rewrite nlen_cons, nlen_nil. lia.
+Qed.
+
+Lemma EncLen_bytes nib ext v : EncLen nib ext v -> bytes ext.
+Proof.
+  intros H. inversion H; subst; [constructor|].
+  apply bytes_app. split; [|apply bytes_cons; split; [lia|constructor]].
+  unfold bytes. apply Forall_forall. intros y Hy. apply repeat_spec in Hy. subst. lia.
+Qed.
+
+Lemma EncSeq_bytes lits off mlen enc : EncSeq (Seq lits off mlen) enc -> bytes lits -> bytes enc.
+Proof.
+  intros H B. inversion H as [l o m ln lext mn mext HL Hm HM Ho]; subst.
+  pose proof (EncLen_nib _ _ _ HL). pose proof (EncLen_nib _ _ _ HM).
+  apply bytes_cons. split; [lia|]. apply bytes_app. split; [eapply EncLen_bytes; exact HL|].
+  apply bytes_app. split; [exact B|]. apply bytes_cons. split; [lia|]. apply bytes_cons. split; [lia|].
+  eapply EncLen_bytes; exact HM.
+Qed.
+
+Lemma EncLast_bytes lits last : EncLast lits last -> bytes lits -> bytes last.
+Proof.
+  intros H B. inversion H as [l ln lext mn HL Hm]; subst. pose proof (EncLen_nib _ _ _ HL).
+  apply bytes_cons. split; [lia|]. apply bytes_app. split; [eapply EncLen_bytes; exact HL|exact B].
+Qed.
+
+(** lz4_count: the bytes agree, within the input and within the room left before matchlimit *)
+Lemma count_spec a : forall b room k, (k < count a b room)%nat -> nth_error a k = nth_error b k.
+Proof.
+  induction a as [|u a' IH]; intros b room k H.
+  - destruct room; simpl in H; lia.
+  - destruct room as [|room]; [simpl in H; lia|]. destruct b as [|v b']; [simpl in H; lia|].
+    cbn [count] in H. destruct (u =? v) eqn:E; [|lia].
+    destruct k as [|k]; cbn [nth_error]; [f_equal; lia|]. apply (IH b' room). lia.
+Qed.
+
+Lemma count_le a : forall b room, (count a b room <= room)%nat.
+Proof.
+  induction a as [|u a' IH]; intros b room; destruct room as [|room]; try (simpl; lia).
+  destruct b as [|v b']; [simpl; lia|]. cbn [count]. destruct (u =? v); [specialize (IH b' room); lia|lia].
+Qed.
+
+Lemma MINM_eq : MINM = 4%nat. Proof. reflexivity. Qed.
+Lemma LASTL_eq : LASTL = 12%nat. Proof. reflexivity. Qed.
+Lemma MIN_LENGTH_eq : MIN_LENGTH = 13. Proof. reflexivity. Qed.
+
+(* ================================================================== compression: the main loop *)
+
+Section CompressProofs.
+  Context {St : Type}.
+  Variable look : St -> nat -> nat * St.
+  Variable ins : St -> nat -> St.
+
+  (** Invariant of the main loop for EVERY match finder.  [255 * olen <= 256 * anchor] is the cost
+      argument behind carquet_lz4_compress_bound; [anchor = 0 \/ anchor + 12 <= n] is the last-literals
+      margin that gives the end-of-block rules. *)
+  Lemma lloop_valid (x : list N) (n : nat) : n = length x -> bytes x -> (13 <= n)%nat ->
+    forall cap, compress_bound (N.of_nat n) <= cap ->
+    forall fuel st ip anchor olen, (anchor <= ip)%nat -> (ip <= n)%nat -> (n - ip < fuel)%nat ->
+      255 * olen <= 256 * N.of_nat anchor -> (anchor = 0 \/ anchor + 12 <= n)%nat ->
+      exists out qs lits body last,
+        lloop look ins fuel x n st ip anchor olen cap = Ok out /\ out = body ++ last /\
+        EncSeqs qs body /\ EncLast lits last /\
+        (exists r, exec_seqs qs (rev (firstn anchor x)) = Some r /\ rev_append lits r = rev x) /\
+        ((anchor <> 0%nat \/ qs <> []) -> 12 <= nlen lits) /\
+        255 * (olen + nlen out) <= 256 * N.of_nat n + 495 /\ bytes out.
+  Proof.
+    intros Hn B H13 cap Hcap. unfold compress_bound in Hcap.
+    induction fuel as [|f IH]; intros st ip anchor olen Ha Hi Hf Hinv Hend; [lia|].
+    cbn [lloop]. rewrite ?MINM_eq, ?LASTL_eq. destruct (ip + 4 <? n)%nat eqn:E4.
+    - destruct (look st ip) as [ref st1].
+      destruct ((ip <=? ref)%nat || (65535 <? N.of_nat (ip - ref))) eqn:Eskip.
+      { apply IH; try assumption; lia. }
+      destruct (rd32_some x ref) as [a Ea]; [lia|]. destruct (rd32_some x ip) as [b Eb]; [lia|].
+      rewrite Ea, Eb. destruct (negb (a =? b)) eqn:Eab.
+      { apply IH; try assumption; lia. }
+      assert (a = b) by lia. subst b. clear Eab.
+      set (ext := count (skipn (ip + 4) x) (skipn (ref + 4) x) (n - 12 - (ip + 4))).
+      set (mlen := (4 + ext)%nat).
+      destruct (n - 12 <? ip + mlen)%nat eqn:Emargin.
+      { apply IH; try assumption; lia. }
+      assert (HM : forall k, (k < mlen)%nat -> nth_error x (ip - (ip - ref) + k) = nth_error x (ip + k)).
+      { intros k Hk. replace (ip - (ip - ref))%nat with ref by lia.
+        destruct (Nat.lt_ge_cases k 4) as [L|G].
+        - apply (rd32_eq x ref ip a B Ea Eb k L).
+        - pose proof (count_spec (skipn (ip + 4) x) (skipn (ref + 4) x) (n - 12 - (ip + 4)) (k - 4)) as P.
+          rewrite !skipn_nth_error in P.
+          replace (ip + 4 + (k - 4))%nat with (ip + k)%nat in P by lia.
+          replace (ref + 4 + (k - 4))%nat with (ref + k)%nat in P by lia.
+          symmetry. apply P. fold ext. lia. }
+      assert (HO : ocopy mlen (N.of_nat (ip - ref - 1)) (rev (firstn ip x)) = Some (rev (firstn (ip + mlen) x))).
+      { apply ocopy_match; try lia. exact HM. }
+      set (lits := slice x anchor ip).
+      assert (HSL : nlen lits = N.of_nat (ip - anchor)) by (unfold nlen, lits; rewrite slice_length; lia).
+      pose proof (write_seq_len lits (N.of_nat (ip - ref)) (N.of_nat mlen)) as HWL. rewrite HSL in HWL.
+      set (sq := write_seq lits (N.of_nat (ip - ref)) (N.of_nat mlen)) in *.
+      (* cost of this sequence: at most 256/255 of the input it covers *)
+      assert (Hcost : 255 * nlen sq <= 256 * (N.of_nat (ip - anchor) + N.of_nat mlen)).
+      { rewrite HWL. destruct (15 <=? N.of_nat (ip - anchor)) eqn:C1; destruct (15 <=? N.of_nat mlen - 4) eqn:C2; lia. }
+      assert (Hmax : 1 + N.of_nat (ip - anchor) / 255 + N.of_nat (ip - anchor) + 2 + N.of_nat mlen / 255 <= nlen sq).
+      { rewrite HWL. destruct (15 <=? N.of_nat (ip - anchor)) eqn:C1; destruct (15 <=? N.of_nat mlen - 4) eqn:C2; lia. }
+      destruct (cap <? olen + (1 + N.of_nat (ip - anchor) / 255 + N.of_nat (ip - anchor) + 2 + N.of_nat mlen / 255)) eqn:Echeck; [lia|].
+      destruct (cap <? olen + nlen sq) eqn:Ewrite; [lia|].
+      destruct (IH (if (ip + mlen + 4 <? n)%nat then ins st1 (ip + mlen - 2)%nat else st1)
+                   (ip + mlen)%nat (ip + mlen)%nat (olen + nlen sq))
+        as (out' & qs & ll & body & last & Hrun & Hout & Hqs & Hlast & (r & Hx & Hr) & Hend' & Hb' & Bo');
+        [lia|lia|lia|lia|lia|].
+      rewrite Hrun. cbn [bind].
+      assert (HQ : EncSeq (Seq lits (N.of_nat (ip - ref)) (N.of_nat mlen)) sq) by (apply write_seq_enc; lia).
+      exists (sq ++ out'), (Seq lits (N.of_nat (ip - ref)) (N.of_nat mlen) :: qs), ll, (sq ++ body), last.
+      split; [reflexivity|]. split; [rewrite Hout, app_assoc; reflexivity|].
+      split; [constructor; assumption|]. split; [exact Hlast|]. split; [|split; [|split]].
+      + exists r. split; [|exact Hr]. cbn [exec_seqs exec_seq].
+        destruct (N.of_nat (ip - ref) =? 0) eqn:E0; [lia|].
+        rewrite rev_append_rev, <- rev_app_distr. unfold lits. rewrite slice_app_firstn by lia.
+        rewrite Nat2N.id. replace (N.of_nat (ip - ref) - 1) with (N.of_nat (ip - ref - 1)) by lia.
+        rewrite HO. exact Hx.
+      + intros _. apply Hend'. left. lia.
+      + rewrite nlen_app. lia.
+      + apply bytes_app. split; [|exact Bo']. eapply EncSeq_bytes; [exact HQ|apply bytes_slice; exact B].
+    - (* last literals *)
+      set (lits := slice x anchor n).
+      assert (HSL : nlen lits = N.of_nat (n - anchor)) by (unfold nlen, lits; rewrite slice_length; lia).
+      pose proof (write_last_len lits) as HWL. rewrite HSL in HWL.
+      destruct (cap <? olen + 1 + N.of_nat (n - anchor) / 255 + N.of_nat (n - anchor)) eqn:Echeck; [lia|].
+      destruct (cap <? olen + nlen (write_last lits)) eqn:Ewrite.
+      { rewrite HWL in Ewrite. destruct (15 <=? N.of_nat (n - anchor)) eqn:C1; lia. }
+      exists (write_last lits), [], lits, [], (write_last lits).
+      split; [reflexivity|]. split; [reflexivity|]. split; [constructor|]. split; [apply write_last_enc|].
+      split; [|split; [|split]].
+      + exists (rev (firstn anchor x)). split; [reflexivity|].
+        rewrite rev_append_rev, <- rev_app_distr. unfold lits. rewrite slice_app_firstn by lia.
+        rewrite Hn, firstn_all. reflexivity.
+      + intros [H|H]; [|congruence]. rewrite HSL. lia.
+      + rewrite HWL. destruct (15 <=? N.of_nat (n - anchor)) eqn:C1; lia.
+      + eapply EncLast_bytes; [apply write_last_enc|apply bytes_slice; exact B].
+  Qed.
+End CompressProofs.
+
+(* ================================================================== theorems about compress *)
+
+(** For every match finder and every input, with a destination of at least carquet_lz4_compress_bound
+    bytes: the call succeeds (the in-loop space checks never fire and no write passes the
+    destination), the output is a valid LZ4 block denoting the input and respecting the end-of-block
+    rules, consists of bytes, and is no longer than the bound. *)
+Theorem lz4_compress_valid_thm : forall (St : Type) (look : St -> nat -> nat * St) (ins : St -> nat -> St)
+    (st0 : St) (x : list N) (cap : N),
+  bytes x -> compress_bound (nlen x) <= cap ->
+  exists out, compress_with look ins st0 x cap = Ok out /\ ValidLz4Output out x /\ bytes out /\
+              nlen out <= compress_bound (nlen x).
+Proof.
+  intros St look ins st0 x cap B Hcap. unfold compress_with. fold (nlen x).
+  destruct (cap <? compress_bound (nlen x)) eqn:E; [lia|]. unfold compress_bound in *.
+  destruct (length x =? 0)%nat eqn:E0.
+  { destruct x; [|simpl in E0; lia]. change (nlen (@nil N)) with 0 in *.
+    destruct (cap <? 1) eqn:E1; [lia|]. exists [0]. split; [reflexivity|]. split; [|split].
+    - exists [], []. split; [|split; [reflexivity|exact I]].
+      exists [], [0]. split; [reflexivity|]. split; [constructor|].
+      assert (H0 : 0 < 15) by lia. assert (H1 : 0 < 16) by lia.
+      exact (ELast [] 0 [] 0 (EL_short 0 H0) H1).
+    - apply bytes_cons. split; [lia|constructor].
+    - rewrite nlen_cons. change (nlen (@nil N)) with 0. lia. }
+  rewrite MIN_LENGTH_eq. destruct (nlen x <? 13) eqn:E13.
+  { destruct (cap <? nlen x + 1) eqn:E1; [lia|].
+    exists ((16 * nlen x) mod 256 :: x). split; [reflexivity|].
+    assert (HL : EncLast x ((16 * nlen x) mod 256 :: x)).
+    { replace ((16 * nlen x) mod 256) with (16 * nlen x + 0) by lia.
+      assert (H0 : nlen x < 15) by lia. assert (H1 : 0 < 16) by lia.
+      exact (ELast x (nlen x) [] 0 (EL_short (nlen x) H0) H1). }
+    split; [|split].
+    - exists [], x. split; [exists [], ((16 * nlen x) mod 256 :: x); split; [reflexivity|split; [constructor|exact HL]]|].
+      split; [|exact I]. unfold exec_block. cbn [exec_seqs]. rewrite rev_append_rev, app_nil_r, rev_involutive. reflexivity.
+    - eapply EncLast_bytes; eassumption.
+    - rewrite nlen_cons. lia. }
+  destruct (lloop_valid look ins x (length x) eq_refl B ltac:(unfold nlen in *; lia) cap Hcap
+              (S (length x)) st0 O O 0)
+    as (out & qs & lits & body & last & Hrun & Hout & Hqs & Hlast & (r & Hx & Hr) & Hend & Hb & Bo);
+    [lia|lia|lia|lia|lia|].
+  exists out. split; [exact Hrun|]. split; [|split; [exact Bo|unfold nlen in *; lia]].
+  exists qs, lits. split; [exists body, last; auto|]. split.
+  - unfold exec_block. cbn [firstn rev] in Hx. rewrite Hx, Hr, rev_involutive. reflexivity.
+  - unfold end_rules. destruct (rev qs) as [|q t] eqn:ER; [exact I|].
+    assert (qs <> []) by (intros ->; discriminate).
+    assert (12 <= nlen lits) by (apply Hend; right; assumption). lia.
+Qed.
+
+Lemma valid_output_denotes s x : ValidLz4Output s x -> DenotesLz4 s x.
+Proof. intros (qs & lits & HB & Hx & _). exists qs, lits. auto. Qed.
+
+(** C09: compress into a buffer of the advertised bound, decompress into exactly len(x) bytes *)
+Theorem lz4_roundtrip_thm : forall (St : Type) (look : St -> nat -> nat * St) (ins : St -> nat -> St)
+    (st0 : St) (x : list N) (cap : N),
+  bytes x -> compress_bound (nlen x) <= cap ->
+  exists out, compress_with look ins st0 x cap = Ok out /\ nlen out <= compress_bound (nlen x) /\
+              decompress out (nlen x) = Ok x.
+Proof.
+  intros St look ins st0 x cap B Hcap.
+  destruct (lz4_compress_valid_thm St look ins st0 x cap B Hcap) as (out & Hc & HV & Bo & Hb).
+  exists out. split; [exact Hc|]. split; [exact Hb|].
+  apply lz4_decompress_complete_thm; [exact Bo|apply valid_output_denotes; exact HV|lia].
+Qed.
+
+(** C09: a destination smaller than the bound is refused before anything is written *)
+Theorem lz4_compress_small_dst_refused_thm : forall (St : Type) (look : St -> nat -> nat * St)
+    (ins : St -> nat -> St) (st0 : St) (x : list N) (cap : N),
+  cap < compress_bound (nlen x) -> compress_with look ins st0 x cap = Err ERR_COMP.
+Proof.
+  intros St look ins st0 x cap H. unfold compress_with. fold (nlen x).
+  destruct (cap <? compress_bound (nlen x)) eqn:E; [reflexivity|lia].
+Qed.
+
+Example lz4_compress_example :
+  let x := repeat 7 40 ++ [1; 2; 3] ++ repeat 7 40 in
+  exists out, compress x 200 = Ok out /\ (length out < length x)%nat /\ spec_decode out = Some x
+              /\ check_end_rules out = true.
+Proof.
+  eexists. split; [vm_compute; reflexivity|]. split; [vm_compute; lia|]. split; vm_compute; reflexivity.
+Qed.
